@@ -4,6 +4,7 @@ import Unimock.Generated.Counter
 import Unimock.Lemmas.Scan
 import Unimock.Model.Assemble
 import Unimock.Lemmas.Ordered
+import Unimock.Generated.ScanSkel
 /-!
 # C04 — next_call patterns are consumed strictly in declaration order across methods
 
@@ -328,5 +329,66 @@ theorem C04_source_new_pattern {α ρ} (a : Asm α ρ) (b : Builder α ρ) (h : 
 
 /-- non-vacuity: an unordered exactly-once pattern between two ordered ones takes no slot -/
 example : Generated.slotAlloc false true 3 1 = (0, 0, 3) ∧ Generated.slotAlloc true true 3 2 = (3, 5, 5) := by decide
+
+
+/-! ## source agreement: the `InOrder` arm of `Eval::match_call_pattern` and `bump_ordered_call_index` -/
+section Source
+open ScanSkel
+variable {α ρ : Type}
+
+/-- **C04, source agreement (statement list).** The `InOrder` block as translated from the current
+    source claims the slot first — the counter moves by exactly one whatever the verdict — and judges
+    the call against the pattern owning that slot only. -/
+theorem C04_source_ordered_steps (find : Nat → Option Nat) (r : Nat → R) (next : Nat) :
+    runO find r Generated.orderedSteps {} next = specO find r next := by
+  unfold Generated.orderedSteps specO
+  cases h : find next with
+  | none => simp [runO, h]
+  | some pi => cases hr : r pi <;> simp [runO, h, hr]
+
+/-- **C04, source agreement (the counter).** `bump_ordered_call_index` is one `fetch_add(1, SeqCst)`:
+    it returns the old value and leaves the counter one higher. -/
+theorem C04_source_bump (next : Nat) :
+    Generated.bumpSkel.run next = some (next, next + 1) ∧ Generated.bumpSkel.seqCst = true := by
+  constructor <;> rfl
+
+/-- how an outcome of the source skeleton reads in the model -/
+def agreesO (m : MethodInfo) (fm : FnMocker α ρ) (s' : Shared α ρ) : OOut → EvalOutcome ρ → Prop
+  | .errCallOrder idx, out => out = .err (.callOrderNotMatched m idx (s'.findOrderedExpected idx))
+  | .errInputs idx pi, out => out = .err (.inputsNotMatchedInCallOrder m idx pi)
+  | .errPattern pi, out => out = .err (.noMatcherFunction m pi)
+  | .unwound _, out => out = .userPanic
+  | .selected pi, out => ∃ p, fm.pats[pi]? = some p ∧ out = (respond m pi p.responders p.count).2
+  | .ill, _ => False
+
+/-- **C04, the translated source is the model's ordered branch.** For every state, ordered method and
+    argument, running the translated statement list with the model's slot lookup and matcher results
+    gives the model's verdict and the model's counter. -/
+theorem C04_source_ordered_is_model (s : Shared α ρ) (m : MethodInfo) (a : α) (fm : FnMocker α ρ)
+    (hf : s.find m.id = some fm) (hm : fm.mode = .inOrder) :
+    let res := runO (findForOrder fm.pats)
+      (fun pi => match fm.pats[pi]? with | some p => ofTry (tryPat p a) | none => .e)
+      Generated.orderedSteps {} s.nextOrdered
+    (evalCall s m a).1.nextOrdered = res.2 ∧
+    agreesO m fm { s with nextOrdered := s.nextOrdered + 1 } res.1 (evalCall s m a).2 := by
+  simp only [C04_source_ordered_steps]
+  unfold specO evalCall
+  simp only [hf, hm]
+  cases hfo : findForOrder fm.pats s.nextOrdered with
+  | none => simp [agreesO]
+  | some pi =>
+    have hlt := (findForOrder_some fm.pats s.nextOrdered pi hfo).1
+    simp only [List.getElem?_eq_getElem hlt]
+    cases ht : tryPat fm.pats[pi] a with
+    | none => simp [ofTry, agreesO]
+    | some t =>
+      cases t with
+      | accept =>
+        simp only [ofTry, agreesO]
+        exact ⟨rfl, _, List.getElem?_eq_getElem hlt, rfl⟩
+      | noMatcher => simp [ofTry, agreesO]
+      | userPanic => simp [ofTry, agreesO]
+
+end Source
 
 end Unimock
